@@ -13,8 +13,10 @@ type Bias struct {
 	Name string
 	// Actions maps action name -> multiplicity in the rapid state machine (weights).
 	Actions map[string]int
-	// SplitPct is the percentage of eligible steps that are split at one of their windows.
-	SplitPct int
+	// SplitPct is the percentage of eligible updater calls that are split at one of their
+	// windows; StartSplitPct the same for trigger-creating subscribes.
+	SplitPct      int
+	StartSplitPct int
 	// KeySpread: percentage of subscribes that do not use key 0.
 	KeySpread int
 	// StartFaultPct: percentage of trigger-creating subscribes whose Start fails or blocks.
@@ -26,12 +28,12 @@ type Bias struct {
 }
 
 // BiasC12 favours events, filters and the delivery windows.
-var BiasC12 = Bias{Name: "C12", SplitPct: 45, KeySpread: 25, StartFaultPct: 10, HookPct: 20, MaxSubs: 7,
+var BiasC12 = Bias{Name: "C12", SplitPct: 60, StartSplitPct: 12, KeySpread: 15, StartFaultPct: 10, HookPct: 20, MaxSubs: 7,
 	Actions: map[string]int{OpSubscribe: 3, OpEvent: 4, OpUpdateSub: 1, OpComplete: 1, OpError: 1, OpDone: 1, OpCloseSub: 1,
 		OpUnsubscribe: 2, OpRemoveClient: 1, OpHeartbeat: 1, OpShutdown: 1, OpReleaseStart: 1}}
 
 // BiasC13 favours trigger churn, start-up faults and the start-up windows.
-var BiasC13 = Bias{Name: "C13", SplitPct: 40, KeySpread: 50, StartFaultPct: 35, HookPct: 35, MaxSubs: 8,
+var BiasC13 = Bias{Name: "C13", SplitPct: 35, StartSplitPct: 45, KeySpread: 50, StartFaultPct: 35, HookPct: 35, MaxSubs: 8,
 	Actions: map[string]int{OpSubscribe: 5, OpEvent: 2, OpUpdateSub: 1, OpComplete: 1, OpError: 1, OpDone: 2, OpCloseSub: 1,
 		OpUnsubscribe: 3, OpRemoveClient: 2, OpHeartbeat: 1, OpShutdown: 1, OpReleaseStart: 2}}
 
@@ -49,34 +51,69 @@ type gen struct {
 // counted in History.Excluded) so that the search goes on behind them.
 func Gen(t *rapid.T, b Bias, known func(id string) bool) History {
 	g := &gen{t: t, m: NewModel(), b: b, known: known}
-	actions := map[string]func(*rapid.T){}
 	names := make([]string, 0, len(b.Actions))
-	for n := range b.Actions {
+	total := 0
+	for n, w := range b.Actions {
 		names = append(names, n)
+		total += w
 	}
 	sort.Strings(names)
-	for _, op := range names {
-		op := op
-		for i := 0; i < b.Actions[op]; i++ {
-			actions[op+string(rune('a'+i))] = func(rt *rapid.T) {
-				g.t = rt
-				st, ok := g.draw(op, nil)
-				if !ok {
-					rt.Skip("not applicable")
+	// one rapid action that picks the operation itself: rapid samples action names with a heavy
+	// bias towards the first ones, which would override the weights
+	actions := map[string]func(*rapid.T){"step": func(rt *rapid.T) {
+		g.t = rt
+		// (rapid treats an action that skips after having drawn as invalid and soon gives up on
+		// the whole sequence, so the action retries instead of skipping)
+		if len(g.h.Steps) >= 40 {
+			return
+		}
+		for try := 0; try < 40; try++ {
+			k := g.intn(total, "op")
+			op := names[len(names)-1]
+			for _, n := range names {
+				if k < b.Actions[n] {
+					op = n
+					break
 				}
+				k -= b.Actions[n]
+			}
+			if st, ok := g.draw(op, nil); ok {
 				g.emit(st)
+				return
 			}
 		}
-	}
+	}}
 	t.Repeat(actions)
 	return g.h
 }
 
-func (g *gen) pct(p int, label string) bool { return rapid.IntRange(0, 99).Draw(g.t, label) < p }
+// rapid draws integers with a strong bias towards small values (about 40% of IntRange(0,99)
+// falls below 10, the rest is roughly flat), which is what makes its shrinking work but makes
+// "v < p" a poor percentage. pct and intn read the flat upper part of the range instead; the
+// small values (where shrinking leads) mean "no" for rare features and "first" for choices.
 
-func pick[T any](g *gen, xs []T, label string) T {
-	return xs[rapid.IntRange(0, len(xs)-1).Draw(g.t, label)]
+// pct is true in roughly p percent of the draws.
+func (g *gen) pct(p int, label string) bool {
+	v := rapid.IntRange(0, 99).Draw(g.t, label)
+	if p <= 50 {
+		return v >= 100-(p*156+50)/100
+	}
+	return v < 100-((100-p)*156+50)/100
 }
+
+// intn draws an index in [0,n), roughly uniform.
+func (g *gen) intn(n int, label string) int {
+	if n <= 1 {
+		return 0
+	}
+	v := rapid.IntRange(0, 99).Draw(g.t, label)
+	if v < 20 {
+		return v % n
+	}
+	return (v - 20) * n / 80
+}
+
+func pick[T any](g *gen, xs []T, label string) T { return xs[g.intn(len(xs), label)] }
 
 func (g *gen) exclude(id string) { g.h.Excluded = append(g.h.Excluded, id) }
 
@@ -101,15 +138,15 @@ func (g *gen) draw(op string, parent *Step) (Step, bool) {
 		if len(m.Subs) >= g.b.MaxSubs {
 			return Step{}, false
 		}
-		st := Step{Op: OpSubscribe, Sub: len(m.Subs), Conn: rapid.IntRange(1, 3).Draw(g.t, "conn")}
+		st := Step{Op: OpSubscribe, Sub: len(m.Subs), Conn: 1 + g.intn(3, "conn")}
 		if g.pct(g.b.KeySpread, "otherKey") {
-			st.Key = rapid.IntRange(1, len(Keys)-1).Draw(g.t, "key")
+			st.Key = 1 + g.intn(len(Keys)-1, "key")
 		}
 		if g.pct(45, "filtered") {
 			st.Filter = pick(g, Filters[1:], "filter")
 		}
 		if g.pct(35, "shaped") {
-			st.Shape = rapid.IntRange(1, Shapes-1).Draw(g.t, "shape")
+			st.Shape = 1 + g.intn(Shapes-1, "shape")
 		}
 		st.Sync = g.pct(15, "sync")
 		st.HB = g.pct(35, "hb")
@@ -117,7 +154,7 @@ func (g *gen) draw(op string, parent *Step) (Step, bool) {
 			st.Hook = pick(g, []string{HookOK, HookFail, HookEmit, HookEmit}, "hook")
 		}
 		if g.pct(12, "flushFails") {
-			st.FlushFailAt = rapid.IntRange(1, 3).Draw(g.t, "flushFailAt")
+			st.FlushFailAt = 1 + g.intn(3, "flushFailAt")
 		}
 		if st.HB && g.pct(15, "hbFails") {
 			st.HBFail = true
@@ -139,7 +176,7 @@ func (g *gen) draw(op string, parent *Step) (Step, bool) {
 		// act on the new trigger of the same key
 		if g.known(FStaleStart) && m.LivePeriod(st.Key) == nil {
 			for _, p := range m.Periods {
-				if p.Key == st.Key && !p.Live && p.Pending != PendNone {
+				if p.Key == st.Key && !p.Live && (p.Pending != PendNone || p.StaleFinish) {
 					g.exclude(FStaleStart)
 					return Step{}, false
 				}
@@ -156,7 +193,7 @@ func (g *gen) draw(op string, parent *Step) (Step, bool) {
 			return Step{}, false
 		}
 		g.evN++
-		st := Step{Op: OpEvent, Period: pick(g, ps, "period"), N: g.evN, K: rapid.IntRange(0, 2).Draw(g.t, "k")}
+		st := Step{Op: OpEvent, Period: pick(g, ps, "period"), N: g.evN, K: g.intn(3, "k")}
 		if g.pct(30, "oddEvent") {
 			st.Kind = pick(g, EventKinds[1:], "kind")
 		}
@@ -169,9 +206,9 @@ func (g *gen) draw(op string, parent *Step) (Step, bool) {
 		}
 		p := m.Periods[pick(g, ps, "period")]
 		g.evN++
-		st := Step{Op: OpUpdateSub, Period: p.Idx, Sub: pick(g, p.Subs, "sub"), N: g.evN, K: rapid.IntRange(0, 2).Draw(g.t, "k")}
+		st := Step{Op: OpUpdateSub, Period: p.Idx, Sub: pick(g, p.Subs, "sub"), N: g.evN, K: g.intn(3, "k")}
 		if g.pct(10, "foreignSub") {
-			st.Sub = rapid.IntRange(0, len(m.Subs)-1).Draw(g.t, "anySub")
+			st.Sub = g.intn(len(m.Subs), "anySub")
 		}
 		if g.pct(20, "oddEvent") {
 			st.Kind = pick(g, EventKinds[1:], "kind")
@@ -235,7 +272,7 @@ func (g *gen) draw(op string, parent *Step) (Step, bool) {
 		if len(m.Subs) == 0 {
 			return Step{}, false
 		}
-		return Step{Op: OpRemoveClient, Conn: rapid.IntRange(1, 3).Draw(g.t, "conn")}, true
+		return Step{Op: OpRemoveClient, Conn: 1 + g.intn(3, "conn")}, true
 
 	case OpShutdown:
 		if m.Shutdown || len(m.Subs) == 0 || !g.pct(35, "reallyShutdown") {
@@ -306,7 +343,11 @@ func (g *gen) emit(st Step) {
 	m := g.m
 	m.StepNo = len(g.h.Steps)
 	ws := g.windows(st)
-	if len(ws) == 0 || !g.pct(g.b.SplitPct, "split") {
+	splitPct := g.b.SplitPct
+	if st.Op == OpSubscribe {
+		splitPct = g.b.StartSplitPct
+	}
+	if len(ws) == 0 || !g.pct(splitPct, "split") {
 		m.ApplyFull(st)
 		g.h.Steps = append(g.h.Steps, st)
 		return
@@ -315,12 +356,17 @@ func (g *gen) emit(st Step) {
 	st.Split = &sp
 	tok := m.Open()
 	m.Begin(st, true)
-	want := rapid.IntRange(1, 2).Draw(g.t, "nestedCount")
+	want := 1 + g.intn(2, "nestedCount")
 	var blocked []Step
 	for tries := 0; len(st.Split.Nested) < want && tries < 8; tries++ {
-		op := pick(g, nestedOps, "nestedOp")
-		// prefer actions that touch what is parked
-		n, ok := g.draw(op, &st)
+		var n Step
+		ok := false
+		if g.pct(60, "targeted") {
+			// prefer actions that touch what is parked
+			n, ok = g.drawTargeted(st)
+		} else {
+			n, ok = g.draw(pick(g, nestedOps, "nestedOp"), &st)
+		}
 		if !ok {
 			continue
 		}
@@ -387,4 +433,77 @@ func (g *gen) nestedAllowed(parent, n Step, blockedSoFar int) bool {
 		}
 	}
 	return true
+}
+
+// drawTargeted draws a nested step aimed at the trigger (and its subscribers) the parked call
+// belongs to.
+func (g *gen) drawTargeted(parent Step) (Step, bool) {
+	m := g.m
+	var p *MPeriod
+	if parent.Op == OpSubscribe {
+		p = m.Periods[m.Subs[parent.Sub].Period]
+	} else {
+		p = m.Periods[parent.Period]
+	}
+	var cands []Step
+	subs := append([]int(nil), p.Subs...)
+	if HoldsUpdater(parent) && !contains(subs, parent.Split.Target) {
+		subs = append(subs, parent.Split.Target)
+	}
+	for _, i := range subs {
+		s := m.Subs[i]
+		cands = append(cands, Step{Op: OpUnsubscribe, Sub: i}, Step{Op: OpUnsubscribe, Sub: i})
+		if !s.Sync {
+			cands = append(cands, Step{Op: OpRemoveClient, Conn: s.Conn})
+		}
+		if p.Live && p.HasUpdater && !p.Terminal {
+			cands = append(cands, Step{Op: OpCloseSub, Period: p.Idx, Sub: i})
+		}
+	}
+	if p.Live && p.HasUpdater && !p.Terminal {
+		g.evN++
+		cands = append(cands, Step{Op: OpEvent, Period: p.Idx, N: g.evN, K: g.intn(3, "k")},
+			Step{Op: OpHeartbeat, Period: p.Idx}, Step{Op: OpComplete, Period: p.Idx}, Step{Op: OpError, Period: p.Idx})
+	}
+	if p.HasUpdater && !p.DoneCalled {
+		cands = append(cands, Step{Op: OpDone, Period: p.Idx})
+	}
+	if p.Pending == PendBlocked {
+		cands = append(cands, Step{Op: OpReleaseStart, Period: p.Idx, Err: g.pct(40, "startErr")})
+	}
+	if !m.Shutdown {
+		cands = append(cands, Step{Op: OpShutdown})
+	}
+	if len(m.Subs) < g.b.MaxSubs {
+		// a subscriber joining (or re-creating) the parked trigger's key
+		if j, ok := g.draw(OpSubscribe, &parent); ok {
+			j.Key = p.Key
+			j.StartMode = StartOK
+			if HoldsUpdater(parent) && j.Hook == HookEmit {
+				j.Hook = HookOK
+			}
+			stale := false
+			for _, q := range m.Periods {
+				if q.Key == j.Key && !q.Live && (q.Pending != PendNone || q.StaleFinish) {
+					stale = true
+				}
+			}
+			if m.LivePeriod(j.Key) != nil || !stale || !g.known(FStaleStart) {
+				cands = append(cands, j, j)
+			} else {
+				g.exclude(FStaleStart)
+			}
+		}
+	}
+	if len(cands) == 0 {
+		return Step{}, false
+	}
+	st := pick(g, cands, "targetedStep")
+	if st.Op == OpDone {
+		if q := m.Periods[st.Period]; g.known(FStaleDone) && !q.Live && m.LivePeriod(q.Key) != nil {
+			g.exclude(FStaleDone)
+			return Step{}, false
+		}
+	}
+	return st, true
 }
